@@ -485,6 +485,99 @@ fn main() {
             wide_scope(10_400);
             fastrace::flush();
         }
+        "deep-backlog" => {
+            // more finish signals parked in one episode than the ring has slots (10240): they must
+            // all get through once the collector runs again, and later traces must be complete
+            let rep = Rep::default();
+            fastrace::set_reporter(rep.clone(), Config::default().report_interval(Duration::from_secs(3600)));
+            std::thread::sleep(Duration::from_millis(50));
+            let n = 10_800usize;
+            let mut roots = Vec::with_capacity(n);
+            for i in 0..n {
+                roots.push(Span::root("r", SpanContext::new(TraceId(0x5000_0000 + i as u128), SpanId(1))));
+                if i % 4000 == 3999 {
+                    fastrace::flush();
+                }
+            }
+            fastrace::flush();
+            let flood = Span::root("flood", SpanContext::new(TraceId(0x4fff_ffff), SpanId(1)));
+            for _ in 0..10_400 {
+                flood.add_event(Event::new("f"));
+            }
+            // the ring is full: every finish below parks its commit
+            for r in roots.drain(..) {
+                drop(r);
+            }
+            let mut rounds = 0;
+            for _ in 0..6 {
+                fastrace::flush();
+                flood.add_event(Event::new("probe"));
+                rounds += 1;
+            }
+            fastrace::flush();
+            {
+                let a = Span::root("after", SpanContext::new(TraceId(0x4fff_fff0), SpanId(1)));
+                let _c = Span::enter_with_parent("after-child", &a);
+            }
+            drop(flood);
+            fastrace::flush();
+            fastrace::flush();
+            let recs = rep.0.lock().unwrap();
+            let commits_seen = recs.iter().filter(|r| r.name == "r").count();
+            let after: Vec<&str> = recs.iter().filter(|r| r.trace_id.0 == 0x4fff_fff0).map(|r| &*r.name).collect();
+            extra = json!({"parked_finishes": n, "rounds": rounds, "root_records_delivered": commits_seen, "after_trace": after});
+            // the roots' own records were submitted while the ring was full (they may be missing);
+            // what must not be lost is the finish signal: the collector must not keep the traces
+            let st = fastrace::verif::collector_stats();
+            if !st.active_collect_ids.is_empty() {
+                panic!("{} traces are still held by the collector after their finish signals were parked in a {}-deep backlog and the queue drained", st.active_collect_ids.len(), n);
+            }
+            if after.len() != 2 {
+                panic!("the trace started after the backlog drained was delivered as {:?}", after);
+            }
+        }
+        "deep-backlog-cancel" => {
+            // a cancel parked behind more forced commands than the ring has slots must still win
+            // over the later finish of its root
+            let rep = Rep::default();
+            fastrace::set_reporter(rep.clone(), Config::default().cancelable(true).report_interval(Duration::from_secs(3600)));
+            std::thread::sleep(Duration::from_millis(50));
+            let victim = Span::root("victim", SpanContext::new(TraceId(0x6001), SpanId(1)));
+            let vchild = Span::enter_with_parent("victim-child", &victim);
+            let by = Span::root("bystander", SpanContext::new(TraceId(0x6002), SpanId(1)));
+            fastrace::flush();
+            for _ in 0..10_400 {
+                by.add_event(Event::new("f"));
+            }
+            for _ in 0..10_300 {
+                by.cancel();
+            }
+            victim.cancel();
+            for _ in 0..6 {
+                fastrace::flush();
+                by.add_event(Event::new("probe"));
+            }
+            drop(vchild);
+            drop(victim);
+            drop(by);
+            fastrace::flush();
+            {
+                let a = Span::root("after", SpanContext::new(TraceId(0x6003), SpanId(1)));
+                let _c = Span::enter_with_parent("after-child", &a);
+            }
+            fastrace::flush();
+            fastrace::flush();
+            let recs = rep.0.lock().unwrap();
+            let leaked: Vec<&str> = recs.iter().filter(|r| r.trace_id.0 == 0x6001 || r.trace_id.0 == 0x6002).map(|r| &*r.name).collect();
+            let after: Vec<&str> = recs.iter().filter(|r| r.trace_id.0 == 0x6003).map(|r| &*r.name).collect();
+            extra = json!({"parked_cancels": 10_301, "cancelled_records_delivered": leaked.len(), "after_trace": after});
+            if !leaked.is_empty() {
+                panic!("records of cancelled traces were delivered after a deep backlog: {:?}", &leaked[..leaked.len().min(4)]);
+            }
+            if after.len() != 2 {
+                panic!("the trace started after the backlog drained was delivered as {:?}", after);
+            }
+        }
         "full-ring" | "full-ring-cancelable" => {
             let (worst, calls) = full_ring(sc.ends_with("cancelable"));
             extra = json!({"worst_call_us": worst as u64, "timed_calls": calls});
